@@ -16,7 +16,7 @@ LEAVES = {
 }
 
 # builtin leaf names the printer writes with the xs: prefix (harness/valgen.py draws from the wider set)
-BUILTIN_LEAVES = set(LEAVES) | {"decimal", "double", "date", "dateTime", "base64Binary", "long", "unsignedByte", "anyURI", "token"}
+BUILTIN_LEAVES = set(LEAVES) | {"decimal", "double", "date", "dateTime", "base64Binary", "long", "unsignedByte", "anyURI", "token", "gYear", "gMonthDay"}
 
 
 # ---------------------------------------------------------------------------- source schema AST
@@ -28,6 +28,8 @@ BUILTIN_LEAVES = set(LEAVES) | {"decimal", "double", "date", "dateTime", "base64
 # schema:   dict(qualified=bool, attr_qualified=bool, types={}, groups={name: particle}, root=(name, typename))
 
 class Gen:
+    rseq_occ = [(1, None), (1, 3), (2, 2)]
+
     def __init__(self, rng, profile="core"):
         self.rng = rng
         self.profile = profile
@@ -120,7 +122,7 @@ class Gen:
                     mn, mx = self.rng.choice([(0, None), (1, 3), (1, None)])
                     items.append(dict(k="choice", items=[self.elem(depth, (1, 1)) for _ in range(2)], min=mn, max=mx))
                 else:
-                    mn, mx = self.rng.choice([(1, None), (1, 3), (2, 2)])
+                    mn, mx = self.rng.choice(self.rseq_occ)
                     first = self.leaf_elem(occ=(1, 1))
                     first["nillable"] = False
                     items.append(dict(k="seq", items=[first] + [self.elem(0) for _ in range(self.rng.choice([0, 1]))], min=mn, max=mx))
@@ -322,6 +324,52 @@ def group_schema(min_, max_):
                                    dict(k="elem", name="tail", type="string", min=0, max=1, nillable=False)], min=1, max=1)
     return dict(qualified=True, attr_qualified=False, types={"T1": dict(kind="complex", content=content, attrs=[], base=None)},
                 groups={"g": g}, root=("root", "T1"))
+
+
+def multi_repeat_schema(rng):
+    """a sequence holding two or three repeating particles (sequence / choice), optionally separated by plain elements"""
+    n = [0]
+
+    def leaf(mn=1, mx=1):
+        n[0] += 1
+        return dict(k="elem", name="m%d" % n[0], type=rng.choice(list(LEAVES)), min=mn, max=mx, nillable=False)
+    items = []
+    for i in range(rng.choice([2, 2, 3])):
+        if rng.random() < 0.5:
+            items.append(leaf(rng.choice([0, 1]), 1))
+        mn, mx = rng.choice([(0, None), (1, None), (1, 3), (0, 2), (2, 2)])
+        if rng.random() < 0.5:
+            items.append(dict(k="seq", items=[leaf()] + [leaf(rng.choice([0, 1]), rng.choice([1, 1, None])) for _ in range(rng.choice([0, 1]))], min=mn, max=mx))
+        else:
+            items.append(dict(k="choice", items=[leaf(), leaf()], min=mn, max=mx))
+    if rng.random() < 0.5:
+        items.append(leaf(rng.choice([0, 1]), 1))
+    content = dict(k="seq", items=items, min=1, max=1)
+    return dict(qualified=rng.random() < 0.7, attr_qualified=False, types={"T1": dict(kind="complex", content=content, attrs=[], base=None)},
+                groups={}, root=("root", "T1"))
+
+
+def optional_only_schemas():
+    """repeating particles whose content can match empty (the shapes on which a missing progress test loops 2^31 times),
+    followed by an optional tail element"""
+    def el(name, mn=1, mx=1):
+        return dict(k="elem", name=name, type="string", min=mn, max=mx, nillable=False)
+    tail = el("tail", 0, 1)
+    out = []
+    for mx in (None, 100000000, 3):
+        for mn in (0, 1):
+            out.append(("seq-optional-only", dict(k="seq", min=mn, max=mx, items=[el("a", 0, 1), el("b", 0, 1)])))
+            out.append(("seq-optional-repeated-member", dict(k="seq", min=mn, max=mx, items=[el("a", 0, None), el("b", 0, 1)])))
+            out.append(("seq-nested-optional", dict(k="seq", min=mn, max=mx, items=[dict(k="seq", min=0, max=1, items=[el("a", 0, 1)]), el("b", 0, 1)])))
+            out.append(("choice-optional-repeated-branch", dict(k="choice", min=mn, max=mx, items=[el("a", 0, 3), el("b")])))
+            out.append(("choice-optional-sequence-branch", dict(k="choice", min=mn, max=mx, items=[dict(k="seq", min=0, max=None, items=[el("a")]), el("b")])))
+            out.append(("choice-in-seq-optional", dict(k="seq", min=mn, max=mx, items=[dict(k="choice", min=0, max=1, items=[el("a"), el("b")])])))
+    res = []
+    for name, p in out:
+        content = dict(k="seq", min=1, max=1, items=[p, copy.deepcopy(tail)])
+        res.append((name, dict(qualified=True, attr_qualified=False, types={"T1": dict(kind="complex", content=content, attrs=[], base=None)},
+                               groups={}, root=("root", "T1"))))
+    return res
 
 
 def validator(xsd_text):
